@@ -268,9 +268,10 @@ theorem createFvElems_ok (base abs size : Nat) (name : Guid) (fv : Fv) (hfv : To
       rw [createFvElems] at h
       by_cases hc : abs ≥ base + o ∧ abs + size ≤ base + o + p.length
       · rw [if_pos hc] at h
+        obtain ⟨hk8, hno⟩ := htar p o (by rw [createFvTarget, if_pos hc])
+        rw [if_neg (by rw [hk8]; simp)] at h
         simp only at h
         cases h
-        obtain ⟨hk8, hno⟩ := htar p o (by rw [createFvTarget, if_pos hc])
         have hk : abs - base - o = abs - (base + o) := by omega
         rw [hk]
         generalize hkk : abs - (base + o) = k at *
